@@ -32,7 +32,7 @@ def run(seed):
         p = subprocess.run("/venv/bin/python harness/vp.py check %s --tier quick --no-build" % pid, shell=True, cwd=VERIF,
                            capture_output=True, text=True, env=env, timeout=1800)
         viol = [l for l in p.stdout.splitlines() if l.startswith("VIOLATION")]
-        direct = [re.search(r"replay=\S*?_direct_([^.\s]+)", l).group(1) for l in viol if "_direct_" in l]
+        direct = [re.search(r"replay=\S*?_direct_([^.\s]+)", l).group(1).replace("_" + seed, "") for l in viol if "_direct_" in l]
         corr = [l for l in viol if "no-failing-input-found" in l]
         return seed, dict(applies=True, rc=p.returncode, detected=p.returncode == 1 and bool(viol),
                           by=("direct predicate: " + ", ".join(direct)) if direct else
